@@ -18,9 +18,9 @@ KT = [K1, K2]
 
 def _hierarchy():
     """Fresh hierarchy per path; Agent's and Environment's own class-level stores are reset."""
-    Agent._components = {}
+    Agent._components.clear()
     Agent._tag = 0
-    Environment._components = {}
+    Environment._components.clear()
     Environment._tag = 0
 
     class A(Agent):
@@ -88,7 +88,8 @@ def class_component_step(ft: int, fr: int, fo: int, ti: int, inst_has: bool) -> 
             d[K1] = K1(cls, m)
         if flags[i] >= 2:
             d[K2] = K2(cls, m)
-        cls._components = d
+        cls._components.clear()
+        cls._components.update(d)
         own.append(dict(d))
     cls = classes[ci]
     T = hx.pick(KT, ti)
